@@ -1,246 +1,502 @@
 """C08 — CTAP1/U2F APDU parsing is total and follows the U2F raw message format.
 
-Decides (P, T, B) from the path literals of every result site of
-`TryFrom<CommandView> for ctap1::Request`:
-  * class != 0 -> ClassNotSupported, and that guard dominates every other result (precedence);
-  * instruction 3 -> Version on a site that depends on nothing but class and instruction;
-  * instruction 1 -> Register iff data.len() == 64, fields at [..32] and [32..];
-  * instruction 2 -> Authenticate iff ControlByte::try_from(p1) succeeds, data.len() >= 65 and
-    data.len() == 65 + data[64]; fields at [..32], [32..64], [65..];
-  * within each instruction arm the error sites are exactly the single negations of the success
-    site's guard chain (so: success iff all guards hold, IncorrectDataParameter otherwise);
-  * any other instruction -> InstructionNotSupportedOrInvalid;
-  * B-guard: every index / constant range / try_into().unwrap() in the parser is discharged by an
-    interval fact on data.len() derived from the dominating guards (this forces the guards to be
-    exact: `!= 64` weakened to `< 64` leaves data[32..] of unknown length and the obligation open);
-  * `TryFrom<&Command<S>>` delegates to the view parser.
+Decides (P, T, B) on the path summaries of `TryFrom<CommandView> for ctap1::Request` (sym.Sym: helper functions such as an
+extracted `parse_register(data)` are expanded at their call sites, named constants are evaluated):
+every path is described over four independent inputs -- the class byte, the instruction byte, whether
+ControlByte::try_from(p1) succeeds, and the data field, of which the parser only looks at its length L and at the byte at
+offset 64 (K).  The comparisons on a path are evaluated as sets: class and instruction by value sets over 0..=255
+(valueset), the data conditions over the complete grid (L, K) in [0, 1100] x [0, 255] -- every constant the parser compares
+with is far below 1100 and narrowing casts are periodic in 256, so larger lengths behave like one of these.  On every (class, instruction, control byte ok, L, K) the path that admits
+it must return what the U2F raw message format prescribes, with the fields taken from exactly the prescribed sub-slices.
+B-grid: every slice operation on a path (index, split_at, get, try_into + unwrap) has its bounds precondition checked on
+the grid region admitted by the comparisons *before* it; a path that ends in a panic must have an empty region.
 Not decided: Lc/Le framing and iso7816::Instruction::from (iso7816, trusted).
 """
+import re
+
 from . import hirq as H
-from . import tables as T
-from . import obligations as O
-from .pathcond import Analysis, OK, ERR
+from . import sym as S
+from . import valueset as VS
+from .dispatch import strip_conv
 
 LEVEL = "other"
 
 FN = "<ctap1::Request<'a> as core::convert::TryFrom<iso7816::command::CommandView<'a>>>"
 FN2 = "<ctap1::Request<'a> as core::convert::TryFrom<&'a iso7816::command::Command<S>>>"
 STATUS = "iso7816::response::status::Status::"
-CLA = "iso7816::command::class::Class::into_inner(iso7816::command::CommandView::<'a>::class(param:apdu))"
-INSTR = "iso7816::command::CommandView::<'a>::instruction(param:apdu)"
-INS = "match(%s)" % INSTR
-DATA = "iso7816::command::CommandView::<'a>::data(param:apdu)"
-LEN = "core::slice::<impl [T]>::len(%s)" % DATA
 TRY_INTO = "core::convert::TryInto::try_into"
+CB_REF = "<ctap1::ControlByte as core::convert::TryFrom<u8>>"
+UNKNOWN = "iso7816::command::instruction::Instruction::Unknown"
+LMAX = 1100
+LEN_CALLS = ("core::slice::<impl [T]>::len",)
 
 
-def lit_of(A, c, F=None):
-    """canonical literal: ('cmp', l, op, r) | ('ins', frozenset(values) , negated) | None"""
-    if c.kind == "expr":
-        t = A.comparison(c)
-        if t:
-            l, op, r = t
-            if l == INS and op in ("==", "!="):
-                try:
-                    return ("ins", frozenset([int(r)]), op == "!=")
-                except ValueError:
-                    pass
-            return ("cmp", l, op, r)
-        return ("expr", A.desc(c.e), c.pol)
-    if c.kind == "match" and A.desc(c.scrut) == INS:
-        try:
-            if H.pat_is_catchall(c.pat):
-                vals = set()
-                for q in c.prior:
-                    vals |= T.pat_values(q, F)[0]
-                return ("ins", frozenset(vals), True)
-            return ("ins", frozenset(T.pat_values(c.pat, F)[0]), False)
-        except T.Unreadable:
+def lin_add(a, b, sign=1):
+    return (a[0] + sign * b[0], a[1] + sign * b[1], a[2] + sign * b[2])
+
+
+class Parser:
+    """interpretation of the parser's terms: DATA sub-slices as (lo, hi) with affine bounds c + l*L + k*K"""
+
+    def __init__(self, F, fn, sym):
+        self.F, self.fn, self.sym = F, fn, sym
+        self.apdu = ("param", [n for p in fn["params"] for n, _ in H.pat_bindings(p)][0])
+        self.nodes = {}
+        for g in [fn] + [F.fn(q) for q in sym.inlined if F.fn(q) is not None]:
+            for n in H.walk(g["body"]):
+                if n.get("sp") and n.get("k") in ("call", "mcall"):
+                    self.nodes.setdefault(n["sp"], n)
+
+    def is_data(self, t):
+        return t[0] == "call" and t[1].endswith("CommandView::<'a>::data") and t[2] == (self.apdu,)
+
+    def is_cla(self, t):
+        return t[0] == "call" and t[1].endswith("Class::into_inner") and len(t[2]) == 1 and t[2][0][0] == "call" and t[2][0][1].endswith("CommandView::<'a>::class") and t[2][0][2] == (self.apdu,)
+
+    def is_instr(self, t):
+        return t[0] == "call" and t[1].endswith("CommandView::<'a>::instruction") and t[2] == (self.apdu,)
+
+    def is_ins(self, t):
+        return t[0] == "proj" and t[2] == UNKNOWN and t[3] == 0 and self.is_instr(t[1])
+
+    def is_cb(self, t):
+        return t[0] == "call" and t[1].startswith(CB_REF) and t[2] == (("field", self.apdu, "p1"),)
+
+    # ---- slices
+    def slice_of(self, t):
+        """(lo, hi) of a sub-slice of DATA, or None"""
+        if t[0] in ("copy",):
+            return self.slice_of(t[1])
+        if self.is_data(t):
+            return (0, 0, 0), (0, 1, 0)
+        if t[0] == "index":
+            b = self.slice_of(t[1])
+            r = t[2]
+            if b is None or r[0] not in ("struct", "call"):
+                return None
+            lo, hi = b
+            if r[0] == "call" and r[1].endswith("RangeInclusive::<Idx>::new") and len(r[2]) == 2:
+                a, e = self.lin(r[2][0]), self.lin(r[2][1])
+                return None if a is None or e is None else (lin_add(lo, a), lin_add(lin_add(lo, e), (1, 0, 0)))
+            if r[0] != "struct":
+                return None
+            f = dict(r[2])
+            name = r[1].split("::")[-1]
+            if name == "RangeFull":
+                return b
+            a = self.lin(f["start"]) if "start" in f else (0, 0, 0)
+            e = self.lin(f["end"]) if "end" in f else None
+            if a is None or ("end" in f and e is None):
+                return None
+            nlo = lin_add(lo, a)
+            nhi = hi if e is None else lin_add(lo, e)
+            if name == "RangeToInclusive" or name == "RangeInclusive":
+                nhi = lin_add(nhi, (1, 0, 0))
+            return nlo, nhi
+        if t[0] == "tproj" and t[1][0] == "call" and t[1][1].endswith("::split_at") and len(t[1][2]) == 2:
+            b = self.slice_of(t[1][2][0])
+            n = self.lin(t[1][2][1])
+            if b is None or n is None:
+                return None
+            mid = lin_add(b[0], n)
+            return (b[0], mid) if t[2] == 0 else (mid, b[1])
+        if t[0] == "proj" and t[2] == S.OK and t[1][0] == "call" and (t[1][1] == TRY_INTO or "TryFrom<&" in t[1][1] or t[1][1].endswith("::try_into") or t[1][1].endswith("::try_from")) and len(t[1][2]) == 1:
+            return self.slice_of(t[1][2][0])
+        return None
+
+    def byte_pos(self, t):
+        """affine position in DATA of a byte term: data[i], *data.get(i)?, first()"""
+        if t[0] == "index" and not (t[2][0] in ("struct",) or (t[2][0] == "call" and "Range" in t[2][1])):
+            b = self.slice_of(t[1])
+            i = self.lin(t[2])
+            return None if b is None or i is None else lin_add(b[0], i)
+        if t[0] == "proj" and t[2] == S.SOME and t[1][0] == "call" and t[1][1].endswith("::get") and len(t[1][2]) == 2:
+            b = self.slice_of(t[1][2][0])
+            i = self.lin(t[1][2][1])
+            return None if b is None or i is None else lin_add(b[0], i)
+        return None
+
+    def lin(self, t):
+        """affine form (c, l, k) of an integer term over L = len(DATA) and K = DATA[64]"""
+        if t[0] == "lit" and isinstance(t[1], int) and not isinstance(t[1], bool):
+            return (t[1], 0, 0)
+        if t[0] == "cast":
+            inner = self.lin(t[1])
+            # widening only: a byte (K) or a constant below 256 survives any integer cast; anything with a length component does not survive `as u8`
+            if inner is not None and (t[2] not in ("u8", "i8") or (inner[1] == 0 and inner[2] in (0, 1) and (inner[2] == 0 and 0 <= inner[0] < 128 or inner == (0, 0, 1)))):
+                return inner
             return None
-    return None
+        if t[0] == "call" and t[1] in LEN_CALLS and len(t[2]) == 1:
+            b = self.slice_of(t[2][0])
+            return None if b is None else lin_add(b[1], b[0], -1)
+        if t[0] == "call" and len(t[2]) == 1 and ("convert::From<u8>" in t[1] or t[1] in ("core::convert::From::from", "core::convert::Into::into")):
+            return self.lin(t[2][0])
+        if t[0] == "bin" and t[1] in ("+", "-"):
+            a, b = self.lin(t[2]), self.lin(t[3])
+            return None if a is None or b is None else lin_add(a, b, 1 if t[1] == "+" else -1)
+        if t[0] == "bin" and t[1] == "*":
+            a, b = self.lin(t[2]), self.lin(t[3])
+            if a is not None and b is not None:
+                if a[1] == a[2] == 0:
+                    return (a[0] * b[0], a[0] * b[1], a[0] * b[2])
+                if b[1] == b[2] == 0:
+                    return (b[0] * a[0], b[0] * a[1], b[0] * a[2])
+            return None
+        p = self.byte_pos(t)
+        if p == (64, 0, 0):
+            return (0, 0, 1)
+        return None
+
+    @staticmethod
+    def val(a, L, K):
+        return a[0] + a[1] * L + a[2] * K
+
+    def fun(self, t):
+        """integer term as a function of (L, K): affine forms, plus narrowing casts (mod 2^8) and bit operations on them"""
+        if t[0] == "cast":
+            f = self.fun(t[1])
+            if f is None:
+                return None
+            if t[2] == "u8":
+                return lambda L, K: f(L, K) & 0xFF
+            if t[2] == "i8":
+                return lambda L, K: ((f(L, K) & 0xFF) ^ 0x80) - 0x80
+            if t[2] == "u16":
+                return lambda L, K: f(L, K) & 0xFFFF
+            return f
+        a = self.lin(t)
+        if a is not None:
+            return lambda L, K: a[0] + a[1] * L + a[2] * K
+        if t[0] == "bin" and t[1] in ("+", "-", "*", "&", "|", "^", ">>", "<<", "%", "/"):
+            f, g = self.fun(t[2]), self.fun(t[3])
+            if f is None or g is None:
+                return None
+            op = t[1]
+            import operator
+            fn_ = {"+": operator.add, "-": operator.sub, "*": operator.mul, "&": operator.and_, "|": operator.or_, "^": operator.xor,
+                   ">>": operator.rshift, "<<": operator.lshift, "%": lambda x, y: x % y if y else 0, "/": lambda x, y: x // y if y else 0}[op]
+            return lambda L, K: fn_(f(L, K), g(L, K))
+        if t[0] == "call" and len(t[2]) == 1 and ("convert::From<" in t[1] or t[1] in ("core::convert::From::from", "core::convert::Into::into")):
+            return self.fun(t[2][0])
+        return None
+
+    # ---- data atoms as predicates over (L, K): returns a function or None (not a data atom) or "unknown"
+    def data_pred(self, a):
+        k = a[0]
+        if k == "true":
+            t, pol = a[1], a[2]
+            if t[0] == "bin" and t[1] in ("<", "<=", "==", "!="):
+                x, y = self.fun(t[2]), self.fun(t[3])
+                if x is None or y is None:
+                    return "unknown" if self.mentions_data(t) else None
+                op = t[1]
+                f = {"<": lambda u, v: u < v, "<=": lambda u, v: u <= v, "==": lambda u, v: u == v, "!=": lambda u, v: u != v}[op]
+                return lambda L, K: f(x(L, K), y(L, K)) == pol
+            if t[0] == "call" and t[1].endswith("::is_empty") and len(t[2]) == 1:
+                b = self.slice_of(t[2][0])
+                if b is not None:
+                    return lambda L, K: (self.val(b[1], L, K) - self.val(b[0], L, K) == 0) == pol
+            return "unknown" if self.mentions_data(t) else None
+        if k == "eq":
+            x, y = self.fun(a[1]), self.fun(a[2])
+            if x is not None and y is not None:
+                return lambda L, K: (x(L, K) == y(L, K)) == a[3]
+            return "unknown" if self.mentions_data(a[1]) or self.mentions_data(a[2]) else None
+        if k in ("is", "isnot"):
+            t, c = a[1], a[2]
+            yes = (k == "is")
+            if t[0] == "call" and t[1].endswith("::get") and len(t[2]) == 2:
+                b = self.slice_of(t[2][0])
+                i = self.lin(t[2][1])
+                if b is None or i is None:
+                    return "unknown"
+                some = c == S.SOME
+                return lambda L, K: ((self.val(i, L, K) < self.val(b[1], L, K) - self.val(b[0], L, K)) == some) == yes
+            if t[0] == "call" and (t[1] == TRY_INTO or t[1].endswith("::try_into") or "TryFrom<&" in t[1]) and len(t[2]) == 1 and self.slice_of(t[2][0]) is not None:
+                b = self.slice_of(t[2][0])
+                n = self.array_len(t)
+                if n is None:
+                    return "unknown"
+                ok = c == S.OK
+                return lambda L, K: ((self.val(b[1], L, K) - self.val(b[0], L, K) == n) == ok) == yes
+            return "unknown" if self.mentions_data(t) else None
+        if k == "in":
+            x = self.lin(a[1])
+            if x is not None:
+                lo, hi, pol = a[2], a[3], a[4]
+                return lambda L, K: ((lo is None or lo <= self.val(x, L, K)) and (hi is None or self.val(x, L, K) <= hi)) == pol
+            return "unknown" if self.mentions_data(a[1]) else None
+        return "unknown" if self.mentions_data(a[1]) else None
+
+    def array_len(self, t):
+        """N of the `&[u8; N]` a try_into call converts to (from the call node's type)"""
+        sp = (t[3] if len(t) > 3 else "").split("@")[0]
+        n = self.nodes.get(sp)
+        ty = (n or {}).get("ty") or ""
+        m = re.search(r"\[u8; (\d+)\]", ty)
+        return int(m.group(1)) if m else None
+
+    def mentions_data(self, t):
+        return any(self.is_data(x) for x in S.subterms(t))
 
 
-def neg(l):
-    if l[0] == "cmp":
-        return ("cmp", l[1], {"==": "!=", "!=": "==", "<": ">=", ">=": "<", ">": "<=", "<=": ">"}[l[3 - 1]], l[3])
-    return None
+GRID = [(L, K) for L in range(LMAX + 1) for K in range(256)]
 
 
-def slice_field(A, node):
-    """('slice', a, b) for DATA[a..b] through try_into().unwrap() or plain slicing; else None"""
-    n = H.strip(node)
-    arr = False
-    if n.get("k") == "mcall" and n.get("callee") in O.UNWRAPS:
-        n = H.strip(n["recv"])
-        if n.get("k") in ("mcall", "call") and n.get("callee") == TRY_INTO:
-            arr = True
-            n = H.strip(H.call_args(n)[0])
-    if n.get("k") == "index" and A.desc(n["base"]) == DATA:
-        r = O.range_of(n["idx"])
-        if r and r[0] == "range":
-            return (r[1], r[2], arr)
-    return None
+def region(P, atoms):
+    """grid points admitted by the data atoms among `atoms`; (set, unread atoms)"""
+    preds = []
+    bad = []
+    for a in atoms:
+        f = P.data_pred(a)
+        if f is None:
+            continue
+        if f == "unknown":
+            bad.append(a)
+            continue
+        preds.append(f)
+    if not preds:
+        return None, bad     # None = the whole grid
+    pts = GRID
+    for f in preds:
+        pts = [pt for pt in pts if f(pt[0], pt[1])]
+    return set(pts), bad
+
+
+_CACHE = {}
+
+
+def analyse(F, fn):
+    """decoded paths of the parser; cached per function text (the parser is the same in every feature configuration)"""
+    cb_fn = F.trait_impl_fn(CB_REF, "try_from")
+    cb_path = cb_fn["path"] if cb_fn else None
+    holder = {}
+
+    def inline(path, node):
+        f = holder["sym"].body_for(path)
+        return f is not None and (f.get("pv") or "user") == "user" and path != cb_path
+
+    def is_effect(callee, args, node, st):
+        if callee == "<index>":
+            return True
+        return (callee or "").split("::")[-1] in ("split_at", "split_at_mut", "copy_from_slice", "split_first", "split_last", "get_unchecked")
+
+    sym = S.Sym(F, fn, is_effect=is_effect, inline=inline)
+    holder["sym"] = sym
+    paths = sym.run(split_result=True)
+    key = repr([(p.atoms, p.result, p.done, [(e.kind, e.callee, e.args, e.natoms) for e in p.effects]) for p in paths])
+    if key in _CACHE:
+        return _CACHE[key]
+    P = Parser(F, fn, sym)
+    out = []
+    for p in paths:
+        d = {"p": p, "unread": []}
+        cla = [x for a in p.atoms for x in S.subterms(a[1]) if P.is_cla(x)]
+        cla_t = cla[0] if cla else None
+        ins_known = sym.lookup(p, next((x for a in p.atoms for x in S.subterms(a[1]) if P.is_instr(x)), ("x",)))
+        ins_t = next((x for a in p.atoms for x in S.subterms(a[1]) if P.is_ins(x)), None)
+        d["cla"], bad1 = VS.path_set([a for a in p.atoms if cla_t is not None and VS.mentions(a[1], cla_t)], cla_t, range(256)) if cla_t is not None else (set(range(256)), [])
+        if (ins_known is not None and ins_known != UNKNOWN) or any(a[0] == "isnot" and P.is_instr(a[1]) and a[2] == UNKNOWN for a in p.atoms):
+            d["ins"] = None          # not an Unknown(..) instruction
+            bad2 = []
+        elif ins_t is not None:
+            d["ins"], bad2 = VS.path_set([a for a in p.atoms if VS.mentions(a[1], ins_t)], ins_t, range(256))
+        else:
+            d["ins"], bad2 = set(range(256)), []
+        cbs = [a for a in p.atoms if a[0] in ("is", "isnot") and P.is_cb(a[1])]
+        d["cb"] = None
+        d["cb_term"] = cbs[0][1] if cbs else None
+        if cbs:
+            d["cb"] = sym.lookup(p, cbs[0][1]) == S.OK
+        data_atoms = []
+        for i, a in enumerate(p.atoms):
+            if cla_t is not None and VS.mentions(a[1], cla_t) or ins_t is not None and VS.mentions(a[1], ins_t) or a in cbs or (a[0] in ("is", "isnot") and P.is_instr(a[1])):
+                continue
+            data_atoms.append((i, a))
+        d["region"], bad3 = region(P, [a for _, a in data_atoms])
+        d["unread"] = bad1 + bad2 + bad3 + [a for _, a in data_atoms if P.data_pred(a) is None]
+        # obligations: bounds of every slice operation, on the region admitted by the atoms that precede it
+        obs = []
+        for e in p.effects:
+            pre = [a for i, a in data_atoms if i < e.natoms]
+            reg, _ = region(P, pre)
+            cond = None
+            what = S.show(e.term if e.term is not None else e.args[0])[:70]
+            if e.kind == "index":
+                base, idx = e.args
+                b = P.slice_of(base)
+                whole = P.slice_of(("index", base, idx))
+                pos = P.byte_pos(("index", base, idx))
+                if b is not None and whole is not None:
+                    cond = lambda L, K, b=b, w=whole: P.val(b[0], L, K) <= P.val(w[0], L, K) <= P.val(w[1], L, K) <= P.val(b[1], L, K)
+                elif b is not None and pos is not None:
+                    cond = lambda L, K, b=b, q=pos: P.val(b[0], L, K) <= P.val(q, L, K) < P.val(b[1], L, K)
+                what = S.show(("index", base, idx))[:70]
+            elif (e.callee or "").endswith("::split_at"):
+                b = P.slice_of(e.args[0])
+                n = P.lin(e.args[1])
+                if b is not None and n is not None:
+                    cond = lambda L, K, b=b, n=n: 0 <= P.val(n, L, K) <= P.val(b[1], L, K) - P.val(b[0], L, K)
+            pts = GRID if reg is None else reg
+            if cond is None:
+                obs.append((what, False, "bounds of this slice operation are not affine in the data length"))
+            else:
+                badpt = next((pt for pt in pts if not cond(pt[0], pt[1])), None)
+                obs.append((what, badpt is None, "out of bounds for a data field of %s bytes%s" % (badpt[0], " whose byte 64 is %d" % badpt[1] if badpt and badpt[1] else "") if badpt else ""))
+        d["obligations"] = obs
+        r = p.result
+        d["outcome"] = "panic" if (p.done and p.done[0] == "panic") or p.done == "diverge" else "ok" if r and r[0] == "ctor" and r[1] == S.OK else "err" if r and r[0] == "ctor" and r[1] == S.ERR else "other"
+        d["value"] = r[2][0] if d["outcome"] in ("ok", "err") and r[2] else None
+        out.append(d)
+    res = (sym, P, out)
+    _CACHE[key] = res
+    return res
+
+
+def expected(ins, cb_ok, L, K):
+    """the U2F raw message format: what the parser must return for class 0"""
+    if ins == 3:
+        return ("ok", "Version")
+    if ins == 1:
+        return ("ok", "Register") if L == 64 else ("err", "IncorrectDataParameter")
+    if ins == 2:
+        if not cb_ok or L < 65 or L != 65 + K:
+            return ("err", "IncorrectDataParameter")
+        return ("ok", "Authenticate")
+    return ("err", "InstructionNotSupportedOrInvalid")
+
+
+FIELDS = {
+    "Register": {"challenge": ((0, 0, 0), (32, 0, 0)), "app_id": ((32, 0, 0), (64, 0, 0))},
+    "Authenticate": {"challenge": ((0, 0, 0), (32, 0, 0)), "app_id": ((32, 0, 0), (64, 0, 0)), "key_handle": ((65, 0, 0), (0, 1, 0))},
+}
 
 
 def run(ctx):
-    ctx.explanation = ("Path-literal analysis of the APDU parser: every result site and `?` site with the canonicalised branch literals that dominate it (typed HIR, let-substituted), "
-                       "compared as sets with the literals the U2F raw message format requires; guard-chain rule for totality; interval discharge of every slice obligation. No execution, no solver.")
-    ctx.rule = "obligation = (result site, literal) | (guard chain position) | (slice obligation), per configuration"
-    ctx.trusted = ["iso7816 0.1.4: CommandView accessors, Lc/Le framing, Instruction::from (1, 2, 3 are Unknown(_))", "core slice indexing / TryFrom<&[T]> for &[T; N] semantics"]
-    ctx.assumptions = ["usize-typed terms are >= 0 (so len == 65 + t implies len >= 65)"]
+    ctx.explanation = ("Path summaries of the APDU parser (typed HIR, helpers expanded, constants evaluated); the comparisons on each path evaluated as sets over the class byte, the instruction byte, "
+                       "the outcome of ControlByte::try_from(p1) and the complete grid (data length 0..=1100) x (byte 64: 0..=255); on every combination the admitting path must return what the U2F raw "
+                       "message format prescribes, with fields from the prescribed sub-slices; bounds of every slice operation checked on the region admitted before it. No execution of the parser, no solver.")
+    ctx.rule = "obligation = (path, clause) | (instruction class x control-byte outcome x grid) | (slice operation), per configuration"
+    ctx.trusted = ["iso7816 0.1.4: CommandView accessors, Lc/Le framing, Instruction::from (1, 2, 3 are Unknown(_))", "core slice indexing / split_at / get / TryFrom<&[T]> for &[T; N] semantics"]
+    ctx.assumptions = ["every constant the parser compares the data length with is < 1100 - 2*256 (checked: larger constants make the analysis report the path as unread)"]
+    from . import ftable as FT
     for cfg, F in ctx.facts.items():
         fn = F.trait_impl_fn(FN, "try_from")
         if not ctx.oblige("C08|anchor", fn is not None, "anchor missing: TryFrom<CommandView> for ctap1::Request", cfg=cfg):
             continue
-        A = Analysis(fn, point_pred=O.is_slice_point)
         where = fn["sp"]
-        # ---- the instruction byte
-        ins_ok = False
-        for lid, init in A.env.items():
-            i = H.strip_block(init)
-            if i.get("k") == "match" and A.desc(i["scrut"]) == INSTR:
-                arms = i["arms"]
-                if len(arms) == 2:
-                    p0 = arms[0]["pat"]
-                    b0 = H.pat_bindings(p0)
-                    v1 = H.lit(arms[1]["body"])
-                    ins_ok = (H.pat_ctor(p0) or "").endswith("Instruction::Unknown") and len(b0) == 1 and H.local_id(arms[0]["body"]) == b0[0][1] \
-                        and H.pat_is_catchall(arms[1]["pat"]) and isinstance(v1, int) and v1 not in (1, 2, 3)
-        ctx.oblige("C08|ins-byte", ins_ok, "the instruction byte is no longer `Unknown(b) => b, _ => <a value outside {1,2,3}>`", cfg=cfg, where=where)
-        # ---- classify sites
-        sites = []
-        for s in A.sites:
-            lits = [lit_of(A, c, F) for c in s.conds]
-            node = H.strip_block(s.node) if s.node else {}
-            c = H.ctor(node) or ""
-            sites.append({"s": s, "lits": lits, "ctor": c, "node": node, "kind": "ok" if s.wrappers == [OK] else "err" if s.wrappers == [ERR] else "?"})
-        n_sites = len(sites) + len(A.tries)
-        unread = [x for x in sites if None in x["lits"] or x["kind"] == "?"]
-        ctx.oblige("C08|readable", not unread, "result sites with unrecognised guards: %s" % [A.site_str(x["s"]) for x in unread], cfg=cfg, where=where)
-        cla0 = ("cmp", CLA, "==", "0")
-        # 1. class check
-        cls = [x for x in sites if x["ctor"] == STATUS + "ClassNotSupported"]
-        ctx.oblige("C08|class|site", len(cls) == 1 and cls[0]["kind"] == "err" and cls[0]["lits"] == [("cmp", CLA, "!=", "0")],
-                   "class != 0 -> ClassNotSupported is not decided by the class byte alone: %s" % [A.site_str(x["s"]) for x in cls], cfg=cfg, where=where)
-        for x in sites:
-            if x in cls:
-                continue
-            ctx.oblige("C08|class|precedence|%d" % x["s"].seq, cla0 in x["lits"], "result %s is reachable before the class check" % A.site_str(x["s"])["result"][:60], cfg=cfg, where=H.line(x["node"]), nontrivial=False)
-        for t in A.tries:
-            ctx.oblige("C08|class|precedence|try%d" % t.seq, cla0 in [lit_of(A, c, F) for c in t.conds], "an error exit is reachable before the class check", cfg=cfg, where=H.line(t.node), nontrivial=False)
-
-        def ins_of(lits):
-            """set of instruction values admitted by the literals (over 0..255)"""
-            vals = set(range(256))
-            for l in lits:
-                if l and l[0] == "ins":
-                    vals = vals - l[1] if l[2] else vals & l[1]
-            return vals
-
-        def others(lits):
-            return [l for l in lits if l and l[0] != "ins" and l != cla0]
-
-        # 2. Version
-        ver = [x for x in sites if x["ctor"] == "ctap1::Request::Version" and x["kind"] == "ok"]
-        pure = [x for x in ver if ins_of(x["lits"]) == {3} and not others(x["lits"])]
-        ctx.oblige("C08|version", len(pure) >= 1 and all(ins_of(x["lits"]) <= {3} for x in ver),
-                   "instruction 3 does not yield Version on a path that depends on class and instruction only", cfg=cfg, where=where)
-        # 3./4. Register / Authenticate arms
-        spec = {
-            1: {"ctor": "ctap1::Request::Register", "guards": [("cmp", LEN, "==", "64")], "tries": 0,
-                "fields": {"challenge": (0, 32, True), "app_id": (32, None, True)}, "app_id_alt": (32, 64, True)},
-            2: {"ctor": "ctap1::Request::Authenticate", "guards": [("cmp", LEN, ">=", "65"), ("cmp", LEN, "==", "(65 + (%s[64] as usize))" % DATA)], "tries": 1,
-                "fields": {"challenge": (0, 32, True), "app_id": (32, 64, True), "key_handle": (65, None, False)}},
-        }
-        for v, sp in spec.items():
-            key = "C08|ins%d" % v
-            arm = [x for x in sites if ins_of(x["lits"]) == {v}]
-            oks = [x for x in arm if x["kind"] == "ok"]
-            errs = [x for x in arm if x["kind"] == "err"]
-            if not ctx.oblige(key + "|one-success", len(oks) == 1 and oks[0]["ctor"] == sp["ctor"], "instruction %d has %d success sites (%s)" % (v, len(oks), [x["ctor"] for x in oks]), cfg=cfg, where=where):
-                continue
-            ok = oks[0]
-            g = others(ok["lits"])
-            ctx.oblige(key + "|guards", g == sp["guards"], "instruction %d succeeds under %s, the raw message format requires %s" % (v, g, sp["guards"]), cfg=cfg, where=H.line(ok["node"]))
-            # guard chain: error sites are the single negations
-            want_err = [g[:i] + [neg(g[i])] for i in range(len(g))]
-            got_err = [others(x["lits"]) for x in errs]
-            ctx.oblige(key + "|guard-chain", sorted(map(str, got_err)) == sorted(map(str, want_err)),
-                       "instruction %d: error exits %s are not exactly the single negations %s of the success guards (some inputs are mis-classified)" % (v, got_err, want_err), cfg=cfg, where=where)
-            for x in errs:
-                ctx.oblige(key + "|error-code|%d" % x["s"].seq, x["ctor"] == STATUS + "IncorrectDataParameter", "instruction %d length error is reported as %s" % (v, x["ctor"]), cfg=cfg, where=H.line(x["node"]))
-            # `?` exits in the arm
-            tr = [t for t in A.tries if ins_of([lit_of(A, c, F) for c in t.conds]) == {v}]
-            good = len(tr) == sp["tries"]
-            if good and tr:
-                e = H.strip_block(tr[0].node)
-                good = H.conversion_impl(e) == "<ctap1::ControlByte as core::convert::TryFrom<u8>>" and A.desc(H.call_args(e)[0]) == "param:apdu.p1" and not others([lit_of(A, c, F) for c in tr[0].conds])
-            ctx.oblige(key + "|p1", good, "instruction %d: P1 is not validated through ControlByte::try_from(p1)? before the length checks" % v if sp["tries"] else "instruction %d has an unexpected `?` exit" % v, cfg=cfg, where=where)
-            # fields
-            st = H.strip_block(ok["node"]["args"][0]) if ok["node"].get("k") == "call" and ok["node"].get("args") else {}
-            fl = {f["name"]: f["e"] for f in st.get("fields", [])} if st.get("k") == "struct" else {}
-            for fname, want in sp["fields"].items():
-                got = slice_field(A, fl[fname]) if fname in fl else None
-                alt = sp.get(fname + "_alt")
-                ctx.oblige(key + "|field|" + fname, got == want or (alt is not None and got == alt),
-                           "%s.%s is taken from data%s, the raw message format says data[%s..%s]" % (sp["ctor"].split("::")[-1], fname, got, want[0], want[1] if want[1] is not None else ""), cfg=cfg, where=H.line(ok["node"]))
-            if v == 2:
-                cb = H.strip_block(A.subst(fl.get("control_byte", {}))) if "control_byte" in fl else {}
-                ctx.oblige(key + "|field|control_byte", cb.get("k") == "try" and tr and H.strip_block(cb["e"]) is H.strip_block(tr[0].node), "control_byte is not the validated P1", cfg=cfg)
-            ctx.sample({"cfg": cfg, "instruction": v, "success": A.site_str(ok["s"])["when"], "errors": [A.site_str(x["s"])["when"][-1] for x in errs]}, limit=6)
-        # 5. default arm
-        dead = [x for x in sites if not ins_of(x["lits"])]
-        for x in dead:
-            ctx.note("result site %s is unreachable (contradictory instruction literals)" % A.site_str(x["s"])["result"])
-        dflt = [x for x in sites if ins_of(x["lits"]) and not (ins_of(x["lits"]) & {1, 2, 3}) and x not in cls]
-        ctx.oblige("C08|default", len(dflt) == 1 and dflt[0]["kind"] == "err" and dflt[0]["ctor"] == STATUS + "InstructionNotSupportedOrInvalid" and ins_of(dflt[0]["lits"]) == set(range(256)) - {1, 2, 3} and not others(dflt[0]["lits"]),
-                   "instructions other than 1, 2, 3 do not all yield InstructionNotSupportedOrInvalid", cfg=cfg, where=where)
-        # every site is one of the above
-        known = {STATUS + "ClassNotSupported", STATUS + "IncorrectDataParameter", STATUS + "InstructionNotSupportedOrInvalid", "ctap1::Request::Version", "ctap1::Request::Register", "ctap1::Request::Authenticate"}
-        for x in sites:
-            ctx.oblige("C08|closed|%d" % x["s"].seq, x["ctor"] in known, "unexpected result %s" % x["ctor"], cfg=cfg, where=H.line(x["node"]), nontrivial=False)
-        # 6. B-guard obligations
+        try:
+            sym, P, paths = analyse(F, fn)
+        except S.TooManyPaths:
+            ctx.violation("C08|paths", "the APDU parser has too many paths to enumerate", cfg=cfg, where=where)
+            continue
+        # constants out of the grid's range would make the grid incomplete
+        big = [x for d in paths for a in d["p"].atoms for x in S.subterms(a[1]) if x[0] == "lit" and isinstance(x[1], int) and not isinstance(x[1], bool) and x[1] >= LMAX - 512 and P.mentions_data(a[1])]
+        ctx.oblige("C08|grid-complete", not big, "the parser compares the data field with %s: beyond the analysed grid" % [b[1] for b in big][:3], cfg=cfg, where=where, nontrivial=False)
+        unread = [a for d in paths for a in d["unread"]]
+        ctx.oblige("C08|readable", not unread, "the parser decides on conditions that are not comparisons of class, instruction, P1 validity, data length or data[64]: %s" % sorted({S.show_atom(a) for a in unread})[:3], cfg=cfg, where=where)
+        # 0. the instruction byte: a non-Unknown instruction is treated as an unsupported one
+        for i, d in enumerate(paths):
+            if d["ins"] is None and d["outcome"] != "panic" and (not d["cla"] or 0 in d["cla"]):
+                v = d["value"]
+                ctx.oblige("C08|ins-byte|%d" % i, d["outcome"] == "err" and v == ("ctor", STATUS + "InstructionNotSupportedOrInvalid", ()) if 0 in d["cla"] and len(d["cla"]) == 1 else True,
+                           "an instruction that iso7816 already recognises is answered with %s" % S.show(d["p"].result)[:60], cfg=cfg, where=where, nontrivial=False)
+        # 1. B-grid: slice obligations and panic paths
         n_ob = 0
-        for node, conds in A.points:
-            if node.get("k") == "index":
+        for i, d in enumerate(paths):
+            for what, ok, why in d["obligations"]:
                 n_ob += 1
-                ok, why, ln = O.discharge_index(A, node, conds)
-                ctx.oblige("C08|bounds|%s[%s]" % ("data" if A.desc(node["base"]) == DATA else A.desc(node["base"])[:30], O.range_of(node["idx"])), ok and A.desc(node["base"]) == DATA,
-                           "slice access %s can be out of bounds: %s" % (A.desc(node)[:100], why), cfg=cfg, where=H.line(node))
-            else:
+                ctx.oblige("C08|bounds|%s" % what, ok, "slice access %s can be out of bounds: %s" % (what, why), cfg=cfg, where=where)
+            if d["outcome"] == "panic":
                 n_ob += 1
-                recv = H.strip(node["recv"])
-                good, why = False, "unwrap of something other than a constant-length slice conversion"
-                if recv.get("k") in ("mcall", "call") and recv.get("callee") == TRY_INTO:
-                    src = H.strip(H.call_args(recv)[0])
-                    tgt = node.get("ty", "")
-                    import re
-                    m = re.match(r"^&\[u8; (\d+)\]$", tgt)
-                    if src.get("k") == "index" and m:
-                        ok, w, ln = O.discharge_index(A, src, conds)
-                        good = ok and ln == int(m.group(1))
-                        why = "slice length is %s, array length is %s (%s)" % (ln, m.group(1), w)
-                ctx.oblige("C08|unwrap|%s" % A.desc(node)[-70:], good, "unwrap can panic: %s" % why, cfg=cfg, where=H.line(node))
+                reg = d["region"]
+                empty = reg is not None and not reg
+                pt = None if empty else (next(iter(sorted(reg))) if reg else (0, 0))
+                ctx.oblige("C08|unwrap|%s" % str(d["p"].done[1])[-40:], empty or not d["ins"] or not d["cla"],
+                           "the parser can panic at %s (%s), e.g. for a data field of %s bytes" % (d["p"].done[1], d["p"].done[2].split("::")[-1], pt[0] if pt else "?"), cfg=cfg, where=where)
         ctx.extra.setdefault("slice_obligations", {})[cfg] = n_ob
-        if ctx.tier == "thorough" and cfg == "k0":
-            from .clippyxref import cross_reference
-            cross_reference(ctx, [n.get("sp") for n, _ in A.points] + [x.get("sp") for x in H.walk(fn["body"]) if x.get("k") in ("binary", "cast")], files=["src/ctap1.rs"])
-        # arithmetic: the only addition is 65 + (u8 as usize)
-        adds = [x for x in H.walk(fn["body"]) if x.get("k") == "binary" and x["op"] in ("+", "-", "*")]
-        for x in adds:
-            l, r = A.subst(x["l"]), A.subst(x["r"])
-            small = x["op"] == "+" and any(isinstance(H.lit(a), int) and H.lit(a) < 2 ** 16 for a in (l, r)) and any(b.get("k") == "cast" and b.get("from") == "u8" for b in (l, r))
-            ctx.oblige("C08|arith|%s" % A.desc(x)[:60], small, "arithmetic %s may overflow" % A.desc(x)[:80], cfg=cfg, where=H.line(x), nontrivial=False)
-        ctx.floor("result sites", n_sites, 5, cfg=cfg)
+        # 2. decision table: class
+        live = [d for d in paths if d["outcome"] != "panic"]
+        for i, d in enumerate(live):
+            v = d["value"]
+            is_cls_err = d["outcome"] == "err" and v == ("ctor", STATUS + "ClassNotSupported", ())
+            nz = d["cla"] - {0}
+            if nz:
+                ctx.oblige("C08|class|site|%d" % i, is_cls_err and 0 not in d["cla"] and d["ins"] != set() and d["region"] is None and d["cb"] is None if True else True,
+                           "class != 0 -> ClassNotSupported is not decided by the class byte alone (path admits class %s, returns %s%s)" % (sorted(d["cla"])[:3], S.show(d["p"].result)[:50], ", after looking at the instruction/data" if (d["region"] is not None or d["cb"] is not None) else ""), cfg=cfg, where=where)
+            else:
+                ctx.oblige("C08|class|precedence|%d" % i, not is_cls_err, "ClassNotSupported is returned for class 0", cfg=cfg, where=where, nontrivial=False)
+        covered = set().union(*[d["cla"] for d in live]) if live else set()
+        ctx.oblige("C08|class|total", covered == set(range(256)), "class bytes %s reach no result" % sorted(set(range(256)) - covered)[:4], cfg=cfg, where=where, nontrivial=False)
+        # 3. decision table for class 0: instruction x control byte x grid
+        zero = [d for d in live if 0 in d["cla"] and d["ins"] is not None]
+        for ins_class, ins_vals in (("ins1", [1]), ("ins2", [2]), ("version", [3]), ("default", [0, 4, 5, 127, 128, 255])):
+            for ins in ins_vals:
+                for cb in (True, False):
+                    sel = [d for d in zero if ins in d["ins"] and (d["cb"] is None or d["cb"] == cb)]
+                    # every grid point must be admitted by exactly one of them, with the prescribed outcome
+                    seen = {}
+                    wrong = None
+                    for d in sel:
+                        pts = GRID if d["region"] is None else d["region"]
+                        v = d["value"]
+                        name = v[1].split("::")[-1] if v and v[0] == "ctor" else None
+                        if d["outcome"] == "err" and d["cb_term"] is not None and d["cb"] is False and v is not None and strip_conv(v) == sym.proj(d["cb_term"], S.ERR, 0):
+                            name = "IncorrectDataParameter"     # the control byte's own rejection (its table is clause control-byte|table)
+                        got = (d["outcome"], name)
+                        if wrong is None:
+                            # compare on the corner points of the region first, then all of it
+                            for (L, K) in pts:
+                                if got != expected(ins, cb, L, K):
+                                    wrong = (L, K, got, expected(ins, cb, L, K))
+                                    break
+                        for pt in (pts if len(sel) > 1 else ()):
+                            seen[pt] = seen.get(pt, 0) + 1
+                    total = sum(len(GRID) if d["region"] is None else len(d["region"]) for d in sel)
+                    key = "C08|%s|table|ins=%d|p1-%s" % (ins_class, ins, "valid" if cb else "invalid")
+                    ctx.oblige(key, wrong is None and total == len(GRID),
+                               ("instruction %d (P1 %s): a data field of %d bytes%s is answered with %s, the raw message format says %s" % (ins, "valid" if cb else "invalid", wrong[0], " whose byte 64 is %d" % wrong[1] if ins == 2 else "", wrong[2], wrong[3])) if wrong else
+                               "instruction %d (P1 %s): %d of %d (length, byte 64) combinations reach a result" % (ins, "valid" if cb else "invalid", total, len(GRID)), cfg=cfg, where=where)
+        # 4. fields of the successful requests
+        for d in zero:
+            v = d["value"]
+            if d["outcome"] != "ok" or not v or v[0] != "ctor":
+                continue
+            name = v[1].split("::")[-1]
+            if name not in FIELDS:
+                continue
+            st = v[2][0] if v[2] else None
+            fl = dict(st[2]) if st and st[0] == "struct" else {}
+            for fname, want in FIELDS[name].items():
+                got = P.slice_of(fl[fname]) if fname in fl else None
+                if got is not None and name == "Register" and fname == "app_id" and got == ((32, 0, 0), (0, 1, 0)):
+                    got = want      # data[32..] with len == 64
+                ctx.oblige("C08|%s|field|%s" % ("ins1" if name == "Register" else "ins2", fname), got == want,
+                           "%s.%s is taken from %s, the raw message format says data[%d..%s]" % (name, fname, S.show(fl.get(fname))[:70] if fname in fl else "nothing", want[0][0], want[1][0] if not want[1][1] else ""), cfg=cfg, where=where)
+            if name == "Authenticate":
+                cb = fl.get("control_byte")
+                ctx.oblige("C08|ins2|field|control_byte", d["cb_term"] is not None and cb == sym.proj(d["cb_term"], S.OK, 0), "control_byte is not the validated P1 (%s)" % S.show(cb)[:60], cfg=cfg, where=where)
+            ctx.sample({"cfg": cfg, "request": name, "when": [S.show_atom(a) for a in d["p"].atoms][-4:]}, limit=6)
+        known = {STATUS + "ClassNotSupported", STATUS + "IncorrectDataParameter", STATUS + "InstructionNotSupportedOrInvalid", "ctap1::Request::Version", "ctap1::Request::Register", "ctap1::Request::Authenticate"}
+        for i, d in enumerate(live):
+            v = d["value"]
+            cb_err = d["cb_term"] is not None and v is not None and strip_conv(v) == sym.proj(d["cb_term"], S.ERR, 0)
+            ctx.oblige("C08|closed|%d" % i, cb_err or (v is not None and v[0] == "ctor" and v[1] in known), "unexpected result %s" % S.show(d["p"].result)[:60], cfg=cfg, where=where, nontrivial=False)
+        # 5. arithmetic: every sum / product in the parser is bounded by the grid (no component in L), so it cannot overflow
+        for sp, seen in sorted(sym.arith.items(), key=lambda kv: str(kv[0])):
+            for op, l, r in seen:
+                a, b = P.lin(l), P.lin(r)
+                small = a is not None and b is not None and a[1] == b[1] == 0 and op in ("+", "*")
+                ctx.oblige("C08|arith|%s" % S.show(("bin", op, l, r))[:60], small, "arithmetic %s may overflow / underflow" % S.show(("bin", op, l, r))[:80], cfg=cfg, where=sp, nontrivial=False)
+        ctx.floor("paths of the parser", len(paths), 8, cfg=cfg)
+        ctx.extra.setdefault("helpers_expanded", {})[cfg] = sorted(sym.inlined)
         # 7. control byte table
-        cb = F.trait_impl_fn("<ctap1::ControlByte as core::convert::TryFrom<u8>>", "try_from")
+        cb = F.trait_impl_fn(CB_REF, "try_from")
         if ctx.oblige("C08|control-byte|anchor", cb is not None, "anchor missing: TryFrom<u8> for ControlByte", cfg=cfg):
-            from . import ftable as FT
             try:
                 tab = FT.value_table(F, cb, range(256))
                 acc = {b for b, r in tab.items() if FT.classify(r)[0] == "ok"}
                 rej = {(FT.classify(r)[1] or ("x", None))[1] for b, r in tab.items() if b not in acc}
-                names = {b: FT.ctor_name(FT.classify(tab[b])[1]) for b in acc}
                 ctx.oblige("C08|control-byte|table", acc == {3, 7, 8} and rej == {STATUS + "IncorrectDataParameter"}, "control bytes accepted: %s, rejection: %s" % (sorted(acc), rej), cfg=cfg, where=cb["sp"])
             except FT.Unreadable as e:
                 ctx.violation("C08|control-byte|unreadable", "UNREADABLE-IMPL: %s" % e, cfg=cfg)
@@ -248,8 +504,14 @@ def run(ctx):
         f2 = F.trait_impl_fn(FN2, "try_from")
         good = False
         if f2 is not None:
-            b = H.strip_block(f2["body"])
-            if b.get("k") in ("mcall", "call") and b.get("callee") == TRY_INTO:
-                src = H.strip(H.call_args(b)[0])
-                good = src.get("k") == "mcall" and src.get("method") == "as_view" and H.local_name(src["recv"]) == "apdu" and "CommandView" in (b.get("targs") or [""])[0] and "ctap1::Request" in (b.get("targs") or ["", ""])[1]
+            ps = S.Sym(F, f2, is_effect=lambda callee, args, node, st: True, inline=lambda path, node: False).run()
+            if len(ps) == 1 and not ps[0].atoms:
+                r = ps[0].result
+                pn = [n for p in f2["params"] for n, _ in H.pat_bindings(p)]
+                conv_ok = r is not None and r[0] == "call" and (r[1] == fn["path"] or r[1].endswith("::try_into") or r[1].endswith("::try_from"))
+                # the conversion target is fixed by the types: CommandView -> ctap1::Request has exactly one impl (the parser)
+                node = next((x for x in H.walk(f2["body"]) if x.get("k") in ("call", "mcall") and x.get("callee") in ("core::convert::TryInto::try_into", "core::convert::TryFrom::try_from")), None)
+                ta = (node or {}).get("targs") or []
+                tys_ok = node is not None and any("CommandView" in t for t in ta) and any(t.startswith("ctap1::Request") for t in ta)
+                good = conv_ok and tys_ok and len(r[2]) == 1 and r[2][0][0] == "call" and r[2][0][1].endswith("::as_view") and r[2][0][2] == (("param", pn[0]),)
         ctx.oblige("C08|command-delegates", good, "TryFrom<&Command<S>> does not delegate to the CommandView parser", cfg=cfg)
